@@ -3,11 +3,29 @@ Imported by C01/jobs.py:  J += compound_jobs.jobs(tier)"""
 LIB = ["src/lib/ares_library_init.c"]
 SUP = ["vp_rt.c", "valloc.c", "memloops.c", "lock_ghost.c", "dnsrec_abs.c"]
 
+OUTSIDE = ("compound requests: more than one level of callback re-entry; lookups strings with more than one 'b'; host names / address "
+           "texts / service names other than the fixed shapes (lengths concrete per job); getnameinfo flag words outside the listed "
+           "classes in the quick tier (all-bits-symbolic variants run in the thorough tier); /etc/hosts, /etc/services, the local host "
+           "name and interface names are abstract (any outcome of the listed kinds)")
 ASSUMPTIONS = [
-    "compound_*: contract stubs at the TU boundary below each compound request: ares_send_nolock obeys G-send (checked on the real "
-    "one by send_early_*), ares_query_nolock obeys the same contract one level up (checked by q_* on the real ares_query.c), "
-    "ares_gethostbyaddr_nolock and ares_getaddrinfo invoke their callback exactly once, synchronously or later (checked by "
-    "gha_* and the C12 address-lookup walk)",
+    "compound_*: contract stubs at the TU boundary below each compound request, each contract being an assertion of the harness "
+    "one level down: ares_send_nolock obeys G-send (send_early_* on the real ares_send.c); ares_query_nolock obeys the same contract "
+    "(compound_q_* on the real ares_query.c: a failure status is returned only after the callback ran with it; success = callback "
+    "already invoked or exactly one request pending); ares_gethostbyaddr_nolock invokes its callback exactly once, now or later, "
+    "and frees the host entry after the callback returned (compound_gha_*); ares_getaddrinfo invokes its callback exactly once "
+    "with a result exactly on success, the result carrying at least one address (c12_walk_gai_*)",
+    "compound_gha_*: ares_parse_ptr_reply_dnsrec sets *host = NULL first and returns a host entry exactly on success (as the real "
+    "one); ares_dns_addr_to_ptr returns an allocated name or NULL; ares_inet_ntop returns NUL-terminated text or NULL; hosts-file "
+    "search / conversion return any status with an entry / host entry exactly on success; lookups strings {b, f, bf, fb, empty}",
+    "compound_gni_*: ares_inet_ntop never fails for AF_INET/AF_INET6 with a buffer of >= 16/46 bytes and writes at most 15/45 "
+    "characters (quick tier: exactly that many); getservbyport_r: error / not found / nameless entry / names of 4, 32, 33, 40 "
+    "characters; gethostname succeeds and NUL-terminates (\"h.d.e\" or \"host\"; the code ignores its return value); "
+    "if_indextoname: NULL or a name of 3 / 15 characters; snprintf(\"%u\"/\"%lu\") writes the right number of digits",
+    "compound_ghbn_*: ares_subnet_match any verdict; ares_is_localhost / ares_is_onion_domain = the job's name kind; "
+    "ares_addrinfo_localhost sets the name and appends loopback nodes of the family asked, or fails with ARES_ENOMEM at once or "
+    "after the first node",
+    "compound_*: the request started from inside a completion callback (depth 1) is pending or refused at once in the "
+    "getnameinfo / gethostbyname harnesses (full stub behaviour in query / gethostbyaddr)",
 ]
 
 
@@ -80,42 +98,81 @@ def gha_jobs(tier):
     return J
 
 
+NI = dict(NOFQDN=1, NUMERICHOST=2, NAMEREQD=4, NUMERICSERV=8, LOOKUPHOST=256, LOOKUPSERVICE=512)
+
+
 def gni_jobs(tier):
+    """quick tier: the flag word is a constant per job (every branch on it folds; protocol / scope / IDN bits vary over four
+    constant call sites inside the job); thorough tier adds the all-other-bits-symbolic variants (30-80 s each)."""
     J = []
     real = LIB + ["src/lib/ares_free_hostent.c", "src/lib/str/ares_str.c"]
     common = dict(harness="getnameinfo.c", real=real, support=SUP, unwind=66, leak=True, backend="cadical", mem_gb=6, timeout=240)
     fams = {1: "inet", 2: "inet6"}
     classes = {0: "serviceonly", 1: "numerichost", 2: "dns"}
+    LH, LS, NH, NS, NR, NF = NI["LOOKUPHOST"], NI["LOOKUPSERVICE"], NI["NUMERICHOST"], NI["NUMERICSERV"], NI["NAMEREQD"], NI["NOFQDN"]
+    svc_w = ["longest service name that fits", "service name too long"]
+    start_shapes = [
+        # (class, tag, flag word, extra witnesses)
+        (0, "db", LS, ["failed before any send", "service returned"] + svc_w),
+        (0, "numserv", LS | NS, ["failed before any send", "service returned", "numeric service"]),
+        (1, "plain", NH, ["failed before any send"]),
+        (1, "svc", NH | LH | LS, ["failed before any send"] + svc_w),
+        (1, "numserv", NH | LH | LS | NS, ["failed before any send", "numeric service"]),
+        (1, "namereqd", NH | LH | NR, ["failed before any send", "bad flags"]),
+        (2, "plain", 0, ["completed synchronously", "pending"]),
+        (2, "svc", LH | LS, ["completed synchronously", "pending"]),
+        (2, "all", LH | LS | NS | NF | NR, ["completed synchronously", "pending"]),
+    ]
     for fam in (1, 2):
-        for fc in (0, 1, 2):
-            w = ["end", "callback started a new request"]
-            if fc == 0:
-                w += ["failed before any send", "service returned", "numeric service", "longest service name that fits", "service name too long"]
-            elif fc == 1:
-                w += ["failed before any send", "bad flags", "numeric service", "longest service name that fits", "service name too long"]
-                if fam == 2:
-                    w += ["scope id appended"]
-            else:
-                w += ["completed synchronously", "pending"]
-            J.append(dict(common, name="gni_start_%s_%s" % (fams[fam], classes[fc]),
-                          defines=["-DENTRY=0", "-DFAM=%d" % fam, "-DFLAGCLASS=%d" % fc], witnesses=w,
+        for fc, tag, word, wx in start_shapes:
+            w = ["end", "callback started a new request"] + wx
+            if fam == 2 and fc == 1 and not (word & NR):
+                w += ["scope id appended"]
+            J.append(dict(common, name="gni_start_%s_%s_%s" % (fams[fam], classes[fc], tag),
+                          defines=["-DENTRY=0", "-DFAM=%d" % fam, "-DFLAGCLASS=%d" % fc, "-DFLAGS=%du" % word] +
+                                  (["-DHOSTDOM=1"] if word & NF else []) + (["-DNVAR=2"] if (fc == 2 or not (word & LS)) else []), witnesses=w,
                           bound="ares_getnameinfo from scratch, %s socket address (exact-size object; symbolic port, address, scope id), "
-                                "flag class '%s', every other flag bit symbolic; host lookup: synchronous completion with ANY status / "
-                                "pending; service database: error / not found / nameless / names of 4, 32, 33, 40 characters; the "
-                                "callback may start a new request (depth 1)" % (fams[fam], classes[fc])))
+                                "flags 0x%x with {tcp, udp+NUMERICSCOPE} (serviceonly_db / numerichost_svc: also {sctp+IDN, dccp+IDN_ALLOW_UNASSIGNED}); host lookup: synchronous "
+                                "completion with ANY status / pending; service database: error / not found / nameless / names of 4, 32, "
+                                "33, 40 characters; the callback may start a new request (depth 1)" % (fams[fam], word)))
         J.append(dict(common, name="gni_start_%s_badsa" % fams[fam], defines=["-DENTRY=0", "-DFAM=%d" % fam, "-DBADSA"],
                       witnesses=["end", "failed before any send", "valid socket address", "callback started a new request"] +
                                 (["IPv4 address in a larger object"] if fam == 2 else []),
                       bound="ares_getnameinfo with a NULL socket address or ANY sa_family and ANY salen <= the size of the %s object; "
                             "flags: one of service-only / numeric host+service / DNS" % fams[fam]))
-        J.append(dict(common, name="gni_complete_%s" % fams[fam], defines=["-DENTRY=1", "-DFAM=%d" % fam],
-                      witnesses=["end", "name found", "domain stripped", "address text instead of a name", "name required but not found",
-                                 "cancelled or destroyed", "numeric service", "longest service name that fits", "service name too long",
-                                 "callback started a new request"] + (["scope id appended"] if fam == 2 else []),
-                      bound="nameinfo_callback for the outstanding host lookup of a %s request: ANY status 0..24 (host entry exactly on "
-                            "success), all flags symbolic, timeouts so far 0..3; host name with/without the local domain; the "
-                            "callback may start a new request (depth 1)" % fams[fam]))
-    J.append(dict(common, name="gni_start_inet_dns_oom1", defines=["-DENTRY=0", "-DFAM=1", "-DFLAGCLASS=2", "-DALLOCFAIL=1"],
+        for svc, sword in (("nosvc", 0), ("db", LS), ("numserv", LS | NS)):
+            # NOFQDN only matters when a name was found, NAMEREQD only when none was: the two are varied separately
+            for nf, nr, hd in ((0, 0, None), (0, 1, None), (1, 0, 0), (1, 0, 1), (1, 0, 2)):
+                word = LH | sword | (NF if nf else 0) | (NR if nr else 0)
+                w = ["end", "name found", "cancelled or destroyed", "callback started a new request"]
+                w += ["name required but not found"] if nr else ["address text instead of a name"]
+                if hd == 1:
+                    w += ["domain stripped"]
+                if svc == "db":
+                    w += svc_w
+                if svc == "numserv":
+                    w += ["numeric service"]
+                if fam == 2 and not nr:
+                    w += ["scope id appended"]
+                J.append(dict(common, name="gni_complete_%s_%s_nofqdn%d_namereqd%d%s" % (fams[fam], svc, nf, nr, "" if hd is None else "_dom%d" % hd),
+                              defines=["-DENTRY=1", "-DFAM=%d" % fam, "-DFLAGS=%du" % word] + ([] if hd is None else ["-DHOSTDOM=%d" % hd]) +
+                                      ["-DNVAR=2"], witnesses=w,  # all four protocols: gni_start_*_serviceonly_db / numerichost_svc
+                              bound="nameinfo_callback for the outstanding host lookup of a %s request: ANY status 0..24 (host "
+                                    "entry exactly on success), flags 0x%x with {tcp, udp+NUMERICSCOPE}, timeouts so far 0..3%s; "
+                                    "the callback may start a new request (depth 1)" %
+                                    (fams[fam], word, "" if hd is None else "; local host name " +
+                                     ["without a domain", "with the domain the name found ends in (other case)", "with another domain"][hd])))
+        if tier != "quick":
+            for fc in (0, 1, 2):
+                J.append(dict(common, name="gni_start_%s_%s_symflags" % (fams[fam], classes[fc]),
+                              defines=["-DENTRY=0", "-DFAM=%d" % fam, "-DFLAGCLASS=%d" % fc], witnesses=["end", "callback started a new request"],
+                              timeout=600, bound="ares_getnameinfo from scratch, %s socket address, flag class '%s', EVERY other flag bit "
+                                                 "symbolic" % (fams[fam], classes[fc])))
+            J.append(dict(common, name="gni_complete_%s_symflags" % fams[fam], defines=["-DENTRY=1", "-DFAM=%d" % fam],
+                          witnesses=["end", "name found", "domain stripped", "address text instead of a name",
+                                     "name required but not found", "cancelled or destroyed"], timeout=600,
+                          bound="nameinfo_callback for a %s request: ANY status, ALL flag bits symbolic" % fams[fam]))
+    J.append(dict(common, name="gni_start_inet_dns_oom1", defines=["-DENTRY=0", "-DFAM=1", "-DFLAGCLASS=2", "-DFLAGS=256u", "-DALLOCFAIL=1"],
                   witnesses=["end", "failed before any send"], bound="ares_getnameinfo (DNS class), the request state cannot be allocated"))
     return J
 
@@ -152,13 +209,39 @@ def ghbn_jobs(tier):
                             "with address nodes of families '%s' (symbolic addresses) and %d CNAME entries; sort list of 0..2 "
                             "patterns with any match verdicts; the callback may start a new request (depth 1)" % (nodes, ncn)))
     kinds = {0: "plain", 1: "localhost", 2: "onion"}
-    for nk in (0, 1, 2):
-        J.append(dict(common, name="ghbn_file_%s" % kinds[nk], defines=["-DENTRY=2", "-DNAMEKIND=%d" % nk], kf_group="ghbn_file",
-                      witnesses=["end", "failed before any send"] + (["found"] if nk != 2 else []) +
-                                (["hosts-file entry completed with loopback addresses"] if nk == 1 else []),
-                      bound="ares_gethostbyname_file for a %s name (name / result pointer may be NULL), family in {INET, INET6, "
-                            "UNSPEC}; hosts file: entry / ENOTFOUND / EFILE / ENOMEM, conversion: host entry / ENOMEM / ENOTFOUND; "
-                            "loopback addresses: success / ENOMEM at once / ENOMEM after the first node" % kinds[nk]))
+    fbound = ("hosts file: entry / ENOTFOUND / EFILE / ENOMEM, conversion: host entry / ENOMEM / ENOTFOUND; loopback addresses: "
+              "success / ENOMEM at once / ENOMEM after the first node")
+    for nk in (0, 2):
+        J.append(dict(common, name="ghbn_file_%s" % kinds[nk], defines=["-DENTRY=2", "-DNAMEKIND=%d" % nk],
+                      witnesses=["end"] + (["found"] if nk != 2 else []),
+                      bound="ares_gethostbyname_file for a %s name, family in {INET, INET6, UNSPEC}; %s" % (kinds[nk], fbound)))
+    J.append(dict(common, name="ghbn_file_nullargs", defines=["-DENTRY=2", "-DNAMEKIND=0", "-DNULLARGS"],
+                  witnesses=["end", "failed before any send", "found"],
+                  bound="ares_gethostbyname_file with name and/or result pointer NULL or not"))
+    hs = {0: "hit", 1: "hit_convoom", 5: "hit_convnotfound", 2: "notfound", 3: "efile", 4: "oom"}
+    hdesc = {0: "entry found and converted", 1: "entry found, conversion ENOMEM", 5: "entry found, conversion ENOTFOUND",
+             2: "ENOTFOUND", 3: "EFILE", 4: "ENOMEM"}
+    lhs = {0: "ok", 1: "oom", 2: "oompartial"}
+    for fam in (4, 6, 0):
+        for h in (0, 1, 5, 2, 3, 4):
+            for lh in (0, 1, 2):
+                if lh != 0 and (fam == 6 or h not in (0, 2)):
+                    continue
+                if fam == 6 and h in (3, 5):
+                    continue
+                w = ["end"]
+                if lh == 0 and h not in (1, 4):
+                    w += ["found"]
+                    if h == 0:
+                        w += ["hosts-file entry completed with loopback addresses"]
+                J.append(dict(common, name="ghbn_file_localhost_f%d_%s_lh%s" % (fam, hs[h], lhs[lh]),
+                              # known finding ghbn_file_localhost_oom_hostent lives in exactly these shapes
+                              **({"kf_group": "compound_ghbn_file_localhost_oom"} if (h == 0 and lh != 0) else {}),
+                              defines=["-DENTRY=2", "-DNAMEKIND=1", "-DFAMREQ=%d" % fam, "-DHOSTS=%d" % h, "-DLH=%d" % lh],
+                              witnesses=w,
+                              bound="ares_gethostbyname_file for a localhost name, family %s, hosts file: %s; loopback addresses: %s" %
+                                    ({4: "INET", 6: "INET6", 0: "UNSPEC"}[fam], hdesc[h],
+                                     {0: "added", 1: "ENOMEM at once", 2: "ENOMEM after the name and the first node"}[lh])))
     return J
 
 
